@@ -81,7 +81,9 @@ class _Boom(Exception):
 
 
 def _registry_fail(S, how):
-    """Calls into schwifty.registry that fail (on the unchanged tree: without touching anything)."""
+    """Calls into schwifty.registry that fail.  They only ever name registries / indices of their own
+    (never the library's), so that whatever an implementation does with the request - fail at once, record a
+    definition and fail later - cannot legitimately disturb the library's own tables."""
     import importlib  # noqa: PLC0415
 
     reg = importlib.import_module("schwifty.registry")
@@ -89,12 +91,12 @@ def _registry_fail(S, how):
         if how == "get_unknown":
             reg.get("holiday")
         elif how == "build_index_missing_key":
-            reg.build_index("bank", "bank_code", key="no_such_field_in_any_record", accumulate=True)
+            reg.build_index("bank", "vf_probe_index", key="no_such_field_in_any_record", accumulate=True)
         elif how == "manipulate_raises":
             def boom(*a, **k):
                 raise _Boom("callback failed")
 
-            reg.manipulate("bank_code", boom)
+            reg.manipulate("vf_probe_registry", boom)
     except Exception as e:  # noqa: BLE001
         return "failed:" + type(e).__name__
     return "returned"
